@@ -102,6 +102,21 @@ func genDirected(t *rapid.T, n int) []txh.Seg {
 		segs = append(segs, txh.Seg{P: c})
 		return segs
 	}
+	if rapid.IntRange(0, 3).Draw(t, "lockstepPhases") == 0 {
+		// everybody does its operations, then everybody runs its phase 1 (up to the finalising registry write, or to
+		// the end for those that have none), then the finalising writes happen in a drawn order
+		order := rapid.Permutation(intsTo(n)).Draw(t, "order")
+		for _, p := range order {
+			segs = append(segs, txh.Seg{P: p, Until: "Commit.begin"})
+		}
+		for _, p := range rapid.Permutation(intsTo(n)).Draw(t, "phase1Order") {
+			segs = append(segs, txh.Seg{P: p, Until: "Registry.UpdateNoLocksFlip"})
+		}
+		for _, p := range rapid.Permutation(intsTo(n)).Draw(t, "phase2Order") {
+			segs = append(segs, txh.Seg{P: p})
+		}
+		return segs
+	}
 	k := rapid.IntRange(2, 8).Draw(t, "segments")
 	for i := 0; i < k; i++ {
 		g := txh.Seg{P: rapid.IntRange(0, n-1).Draw(t, fmt.Sprintf("seg%d.p", i)), Until: rapid.SampledFrom(segMarkers).Draw(t, fmt.Sprintf("seg%d.until", i))}
